@@ -16,9 +16,19 @@ import (
 
 // invF64 is Gauss-Jordan with partial pivoting in float64 (reference for the
 // small, exactly known history matrices).
+var invScratch = map[int]*M{}
+
 func invF64(a *M) (inv *M, det float64, ok bool) {
 	n := a.r
-	w := newM(n, 2*n)
+	// scratch matrix per size, completely overwritten on every call (workers run cases sequentially)
+	w := invScratch[n]
+	if w == nil {
+		w = newM(n, 2*n)
+		invScratch[n] = w
+	}
+	for i := range w.d {
+		w.d[i] = 0
+	}
 	for i := 0; i < n; i++ {
 		for j := 0; j < n; j++ {
 			w.set(i, j, a.at(i, j))
@@ -224,14 +234,18 @@ func (h *histCtx) out(cls string, mute bool) {
 
 // fresh returns a factorization object that is re-used for every fresh factorization of size n
 // (re-factorizing on one receiver is itself covered by the reuse group) and the matrix to fill.
-func (h *histCtx) fresh(a *M) (*mat.Cholesky, bool) {
-	n := a.r
+func (h *histCtx) ensure(n int) {
 	if h.freshC == nil {
 		h.freshC, h.viaUC, h.symBuf = map[int]*mat.Cholesky{}, map[int]*mat.Cholesky{}, map[int]*mat.SymDense{}
 	}
 	if h.freshC[n] == nil {
 		h.freshC[n], h.viaUC[n], h.symBuf[n] = new(mat.Cholesky), new(mat.Cholesky), mat.NewSymDense(n, nil)
 	}
+}
+
+func (h *histCtx) fresh(a *M) (*mat.Cholesky, bool) {
+	n := a.r
+	h.ensure(n)
 	sb := h.symBuf[n]
 	for i := 0; i < n; i++ {
 		for j := i; j < n; j++ {
@@ -292,11 +306,7 @@ func cholDepth(g *vlib.G, fam string, n int) int {
 	if g.Thorough() && fam == "spd" && n <= 2 {
 		d = 6
 	}
-	if fam == "ident" && !g.Thorough() {
-		// exact arithmetic states (all factors are small dyadic numbers at first): the
-		// boundary operations are decided exactly by the implementation too. One level less in quick.
-		d = 4
-	}
+
 	return d
 }
 
@@ -490,7 +500,9 @@ func (h *histCtx) cholStep(parent *cholNode, oi int, depth int) {
 			}
 		}
 		d := v[n] - q
-		if op.boundary != nil || math.Abs(d) < 1e-9*(1+math.Abs(q)) {
+		if op.boundary != nil {
+			d = 0 // two equal rows by construction
+		} else if math.Abs(d) < 1e-9*(1+math.Abs(q)) {
 			// decide exactly: sign of the determinant of the extended matrix (A is positive definite)
 			ext := newM(n+1, n+1)
 			for i := 0; i < n; i++ {
@@ -652,14 +664,24 @@ func (h *histCtx) cholStep(parent *cholNode, oi int, depth int) {
 		h.failf("", "reconstruction ratio %.3g after %s: UᵀU=%s, updated matrix %s", r, op.name, fmtM(mulM(Um.T(), Um)), fmtM(A2))
 		return
 	}
-	fresh, okFresh := h.fresh(A2)
-	if !okFresh {
-		h.failf("", "fresh factorization of the updated matrix %s failed", fmtM(A2))
-		return
-	}
+	// A fresh factorization of the explicitly updated matrix is compared at every node
+	// except the leaves of the searches of depth >= 5 (16/17 of the nodes; a third of the
+	// cost is the condition estimate inside Factorize): there the comparison is with the
+	// independent reference only, which is the stronger oracle anyway.
 	tol := tolForward * fn * eps * kappa * float64(node.steps+1)
-	if d := recv.Det(); !relClose(d, detRef, tol) || !relClose(d, fresh.Det(), tol) {
-		h.failf("", "Det = %v after %s; fresh %v, reference %v (tol %.2g)", d, op.name, fresh.Det(), detRef, tol)
+	freshDet, freshCond := detRef, math.NaN()
+	h.ensure(n2)
+	if !(h.maxDepth >= 5 && depth == h.maxDepth) {
+		fresh, okFresh := h.fresh(A2)
+		if !okFresh {
+			h.failf("", "fresh factorization of the updated matrix %s failed", fmtM(A2))
+			return
+		}
+		freshDet, freshCond = fresh.Det(), fresh.Cond()
+		h.out("fresh-compared", mute)
+	}
+	if d := recv.Det(); !relClose(d, detRef, tol) || !relClose(d, freshDet, tol) {
+		h.failf("", "Det = %v after %s; fresh %v, reference %v (tol %.2g)", d, op.name, freshDet, detRef, tol)
 		return
 	}
 	if ld := recv.LogDet(); !relClose(math.Exp(ld), detRef, tol) {
@@ -670,7 +692,7 @@ func (h *histCtx) cholStep(parent *cholNode, oi int, depth int) {
 	// overestimate, at most n times larger); Scale and Clone copy the parent's value.
 	// Absolute band: the estimate is a lower bound of the true value times the norm
 	// overestimate (<= n); from below only gross errors are rejected (see lowCond).
-	if c, fc := recv.Cond(), fresh.Cond(); !(c >= kappa/100 && c <= 1.01*fn*kappa) || math.IsNaN(c) {
+	if c, fc := recv.Cond(), freshCond; !(c >= kappa/100 && c <= 1.01*fn*kappa) || math.IsNaN(c) {
 		h.failf("", "Cond = %.6g after %s; reference %.6g (fresh factorization %.6g), accepted [ref/100, n·ref]", c, op.name, kappa, fc)
 		return
 	}
@@ -698,7 +720,11 @@ func (h *histCtx) cholStep(parent *cholNode, oi int, depth int) {
 	}
 	b[0] = 3
 	var x mat.VecDense
-	if err := recv.SolveVecTo(&x, mat.NewVecDense(n2, b)); err != nil {
+	var rhs mat.Vector = mat.NewVecDense(n2, b)
+	if depth%2 == 1 {
+		rhs = userVec{b} // not a RawVectorer: the generic path through SolveTo
+	}
+	if err := recv.SolveVecTo(&x, rhs); err != nil {
 		h.failf("", "SolveVecTo after %s: %v (reference condition %.3g)", op.name, err, kappa)
 		return
 	}
@@ -936,7 +962,11 @@ func (h *histCtx) luStep(parent *luNode, oi int, depth int) {
 	b[0] = 3
 	for _, trans := range []bool{false, true} {
 		var xs mat.VecDense
-		err := recv.SolveVecTo(&xs, trans, mat.NewVecDense(n, b))
+		var rhs mat.Vector = mat.NewVecDense(n, b)
+		if (depth%2 == 0) == trans {
+			rhs = userVec{b} // not a RawVectorer, with both values of trans over the depths
+		}
+		err := recv.SolveVecTo(&xs, trans, rhs)
 		if err != nil {
 			if ce, ok := err.(mat.Condition); ok && math.IsInf(float64(ce), 1) && staleOK {
 				break // same known finding: SolveTo refuses because ok is false
